@@ -187,3 +187,130 @@ process_data = Spec(
                                c.old('_recv_state') == z3.StringVal('open')))],
     raises={'ProtocolError': lambda c: z3.BoolVal(len(c.events('accept')) == 0),
             'PacketDecodeError': lambda c: z3.BoolVal(len(c.events('accept')) == 0)})
+
+
+# ------------------------------------------------------------------ delivery / replenishment
+def session_data_stub(cx):
+    return [Out(event=('deliver', tuple(cx.args)))]
+
+
+session_data_stub.modifies = ()
+
+deliver_data = Spec(
+    PROP, 'channel', 'SSHChannel._deliver_data', self_class='SSHChannel',
+    params=dict(data='bytes', datatype='opt[int]'),
+    classes=CHAN_CLASSES,
+    stubs={'self.send_packet': chan_send_packet_stub,
+           'self._decoder.decode': may_raise(ret('str', 'decoded'), 'UnicodeDecodeError'),
+           'self._session.data_received': session_data_stub},
+    requires=lambda c: z3.And(recv_inv(c, new=False), z3.Length(c.arg('data')) <= c.old('_recv_window'),
+                              c.old('_init_recv_window') < 2 ** 32,
+                              # set_encoding creates the decoder together with the encoding
+                              z3.Implies(c.truthy(c.oldv('_encoding'), c.old_state),
+                                         z3.Not(c.is_none(c.oldv('_decoder'))))),
+    modifies=['_recv_window'],
+    ensures=[
+        # "as long as the application keeps reading the window is replenished": after a delivery the advertised
+        # window is never left below half of the initial window
+        ('window-replenished-at-half', lambda c: 2 * c.new('_recv_window') >= c.old('_init_recv_window')),
+        ('adjust-restores-initial-window', lambda c: z3.And(*[
+            z3.And(c.new('_recv_window') == c.old('_init_recv_window'),
+                   e[1][0].z == __import__('pyvc.builtins_model', fromlist=['be']).be(
+                       z3.IntVal(4), c.old('_init_recv_window') - (c.old('_recv_window') -
+                                                                 z3.Length(c.arg('data')))))
+            for e in c.events('adjust')] + [z3.BoolVal(len(c.events('adjust')) <= 1)])),
+        ('no-adjust-means-plain-decrement', lambda c: z3.Or(
+            z3.BoolVal(len(c.events('adjust')) == 1),
+            c.new('_recv_window') == c.old('_recv_window') - z3.Length(c.arg('data')))),
+        ('delivered-exactly-once', lambda c: z3.Or(
+            c.is_none(c.oldv('_session')), z3.BoolVal(len(c.events('deliver')) == 1))),
+        ('class-inv', lambda c: recv_inv(c)),
+    ],
+    raises={'ProtocolError': True})
+
+accept_data = Spec(
+    PROP, 'channel', 'SSHChannel._accept_data', self_class='SSHChannel',
+    params=dict(data='bytes', datatype='opt[int]'),
+    classes=CHAN_CLASSES, falsy_sorts={'Any'},
+    stubs={'self._deliver_data': contract_stub(lambda: deliver_data)},
+    requires=lambda c: z3.And(recv_inv(c, new=False), z3.Length(c.arg('data')) <= c.old('_recv_window'),
+                              c.old('_init_recv_window') < 2 ** 32,
+                              z3.Implies(c.truthy(c.oldv('_encoding'), c.old_state),
+                                         z3.Not(c.is_none(c.oldv('_decoder'))))),
+    ensures=[('buffered-when-paused-in-order', lambda c: z3.Or(
+        c.new('_recv_buf') == c.old('_recv_buf'),
+        c.new('_recv_buf') == z3.Concat(c.old('_recv_buf'), z3.Unit(
+            to_z3(VTuple([c.argv('data'), c.argv('datatype')]), S.CH)))))],
+    raises={'ProtocolError': True})
+
+
+# ------------------------------------------------------------------ receive credit (also while paused)
+total = z3.Function('total_bytes', S.SEQ, z3.IntSort())     # sum of chunk lengths: recursive, instances only
+
+
+def credit(c):
+    """what the peer may still send = window advertised - bytes already accepted.  asyncssh decrements
+    _recv_window on *delivery*, so bytes accepted but still buffered have to be subtracted"""
+    return c.old('_recv_window') - total(c.old('_recv_buf'))
+
+
+process_data_credit = Spec(
+    PROP, 'channel', 'SSHChannel._process_data', self_class='SSHChannel',
+    params=dict(_pkttype='int', _pktid='int', packet='obj:SSHPacket'),
+    classes=dict(CHAN_CLASSES, **PACKET_CLASSES), inline=dict(PACKET_INLINE), truthy=PACKET_TRUTHY,
+    stubs={'self._accept_data': accept_stub},
+    requires=lambda c: z3.And(recv_inv(c, new=False), packet_wf(c, c.argv('packet')),
+                              total(c.old('_recv_buf')) >= 0,
+                              z3.Implies(z3.Length(c.old('_recv_buf')) == 0, total(c.old('_recv_buf')) == 0),
+                              z3.Implies(z3.Length(c.old('_recv_buf')) > 0, total(c.old('_recv_buf')) >= 1)),
+    ensures=[('accepted-only-within-advertised-credit',
+              lambda c: z3.Length(c.events('accept')[0][1][0].z) <= credit(c) if c.events('accept')
+              else z3.BoolVal(True))],
+    raises={'ProtocolError': True, 'PacketDecodeError': True})
+process_data_credit.tag = 'credit'
+
+
+# ------------------------------------------------------------------ max packet size >= 1 where it is stored
+def open_handler_stub(cx):
+    chan = cx.fresh('obj:Chan', 'chan')
+    sess = cx.fresh('any', 'session')
+    return [Out(ret=VTuple([chan, sess])), Out(exc=VExc('ChannelOpenError'))]
+
+
+open_handler_stub.modifies = ()
+
+
+def process_open_stub(cx):
+    cx.require('max-packet-size>=1', cx.args[2].z >= 1)
+    cx.require('window-is-uint32', z3.And(cx.args[1].z >= 0, cx.args[1].z < 2 ** 32))
+    return [Out(event=('process_open', tuple(cx.args)))]
+
+
+process_open_stub.modifies = ()
+
+OPEN_CONN = {'_client_version': 'bytes', '_server_version': 'bytes', '_compressor': 'opt[obj:Compressor]',
+             '_channels': 'dict[int,obj:Chan]'}
+
+channel_open = Spec(
+    PROP, 'connection', 'SSHConnection._process_channel_open', self_class='SSHConnection',
+    params=dict(_pkttype='int', _pktid='int', packet='obj:SSHPacket'),
+    classes=dict({'SSHConnection': OPEN_CONN, 'Compressor': {}, 'Chan': {}}, **PACKET_CLASSES),
+    inline=dict(PACKET_INLINE), truthy=PACKET_TRUTHY,
+    stubs={'map_handler_name': ret('str', 'hname'), 'getattr': ret('opt[opaque:Handler]', 'handler'),
+           'callable': lambda cx: VBool(z3.Not(cx.args[0].isnone)) if isinstance(cx.args[0], VOpt)
+           else VBool(cx.args[0] is not VNone),
+           'handler': open_handler_stub, 'chan.process_open': process_open_stub,
+           'self.send_channel_open_failure': noop('open_failure')},
+    requires=lambda c: packet_wf(c, c.argv('packet')),
+    ensures=[('opened-xor-refused', lambda c: z3.BoolVal(
+        len(c.events('process_open')) + len(c.events('open_failure')) == 1))],
+    raises={'ProtocolError': True, 'PacketDecodeError': True})
+
+channel_open_conf = Spec(
+    PROP, 'connection', 'SSHConnection._process_channel_open_confirmation', self_class='SSHConnection',
+    params=dict(_pkttype='int', _pktid='int', packet='obj:SSHPacket'),
+    classes=dict({'SSHConnection': OPEN_CONN, 'Compressor': {}, 'Chan': {}}, **PACKET_CLASSES),
+    inline=dict(PACKET_INLINE), truthy=PACKET_TRUTHY,
+    stubs={'chan.process_open_confirmation': process_open_stub},
+    requires=lambda c: packet_wf(c, c.argv('packet')),
+    raises={'ProtocolError': True, 'PacketDecodeError': True})
